@@ -24,6 +24,7 @@ type Val struct {
 
 type Scope struct {
 	inOld bool // evaluating inside old(): names denote entry values
+	paramsAtEntry bool // postconditions: parameter names denote the arguments passed
 	x          *Exec
 	vars       map[string]Val
 	st, old    *State
@@ -182,7 +183,7 @@ func (sc *Scope) ident(name string) Val {
 			if p.Name() == name {
 				// a parameter the body assigns to (or takes the address of) lives in a local cell: outside old() its
 				// name denotes the current content of that cell, once the cell exists
-				if !sc.inOld && sc.st != fr.entry {
+				if !sc.inOld && !sc.paramsAtEntry && sc.st != fr.entry {
 					if cell := paramCell(fr.fn, p); cell != nil {
 						if _, ok := fr.env[cell]; ok {
 							pt := cell.Type().Underlying().(*types.Pointer)
@@ -1139,6 +1140,11 @@ func paramCell(fn *ssa.Function, p *ssa.Parameter) *ssa.Alloc {
 	for _, r := range *refs {
 		if st, ok := r.(*ssa.Store); ok && st.Val == p {
 			if a, ok := st.Addr.(*ssa.Alloc); ok && a.Comment == p.Name() {
+				// a cell that is only ever written by this spill (the parameter is captured by closures but never
+				// re-assigned) always holds the parameter's value: the name keeps denoting the parameter
+				if n, esc := cellUses(fn, a, map[*ssa.Function]bool{}); n == 1 && !esc {
+					return nil
+				}
 				return a
 			}
 		}
